@@ -28,6 +28,7 @@ def run(ctx) -> None:
     r3_byte_source(ctx)
     r4_utf16(ctx)
     r5_wildcards_rejected(ctx)
+    r6_wildcard_width(ctx)
 
 
 def _extract(ctx) -> dict[str, Any]:
@@ -363,6 +364,67 @@ def r4_utf16(ctx) -> None:
         elif boms:
             r.violation("C04.R4", f.qual, "'\\ufeff'", f"{cn} must not add a byte order mark", loc)
     r.floor("C04.R4", 12)
+
+
+def r6_wildcard_width(ctx) -> None:
+    """After wide/utf16/utf16be every character of the text takes two bytes; '?' stands for one character."""
+    from ..tabulate import Interp, Raised
+    r, prog = ctx.r, ctx.prog
+    r.rule("C04.R6", "wildcards in encoded values: the modify() loops of wide/utf16be/utf16, interpreted on a value with both wildcards (sa.tabulate), keep '*' as it is and widen '?' to two one-byte wildcards (or refuse it) — one '?' between two-byte code units matches no encoded string")
+
+    class _SC:
+        def __init__(self, n):
+            self.n = n
+
+        def __repr__(self):
+            return self.n
+
+    S, Mu = _SC("?"), _SC("*")
+    sc = type("SpecialChars", (), {"WILDCARD_SINGLE": S, "WILDCARD_MULTI": Mu})
+
+    class _Str:
+        def __init__(self, *a, **k):
+            self.s = []
+
+    class _PH:
+        pass
+
+    spec = {"SigmaWideModifier": ("utf-16le", False), "SigmaUTF16BEModifier": ("utf-16be", False), "SigmaUTF16Modifier": ("utf-16le", True)}
+    for cn, (codec, bom) in spec.items():
+        f = prog.func(f"{M}.{cn}.modify")
+        val = _Str()
+        val.s = ["ab", S, "c", Mu]
+        me = type("Mod", (), {"source": None})()
+        for nm, sts in prog.cls(f"{M}.{cn}").assigns.items():  # class-level constants the loop may read
+            for st_ in sts:
+                if getattr(st_, "value", None) is not None:
+                    try:
+                        setattr(me, nm, const_eval(prog, f.module, st_.value))
+                    except Exception:
+                        pass
+        it = Interp({"self": me, "val": val, "SigmaString": _Str, "Placeholder": _PH, "SpecialChars": sc, "UnicodeError": UnicodeError,
+                     "UnicodeDecodeError": UnicodeDecodeError, "UnicodeEncodeError": UnicodeEncodeError,
+                     "SigmaValueError": type("SigmaValueError", (Exception,), {})})
+        try:
+            out = it.call(f.node.body)
+        except AnalysisError as ex:  # a body the interpreter cannot follow is not a verdict; the floor below reports the gap
+            r.note(f"C04.R6: {f.qual} not tabulated: {ex}")
+            continue
+        except Raised as ex:
+            if "SigmaValueError" in str(ex):
+                r.ok("C04.R6", f.qual, "a value with '?' is refused with SigmaValueError", f.loc)
+            else:
+                r.violation("C04.R6", f.qual, "modify(['ab', ?, 'c', *])", f"raises {ex}", f.loc)
+            continue
+        got = list(getattr(out, "s", []))
+        enc = lambda t: t.encode(codec).decode("utf-8")
+        want = (["\ufeff"] if bom else []) + [enc("ab"), S, S, enc("c"), Mu]
+        if got == want:
+            r.ok("C04.R6", f.qual, "['ab', ?, 'c', *] → encoded parts, '?' widened to two single wildcards, '*' kept", f.loc)
+        else:
+            r.violation("C04.R6", f.qual, f"modify(['ab', ?, 'c', *]) = {got!r}",
+                        f"specified {want!r}: the character a '?' stands for takes two bytes in the encoded text; kept as one wildcard the value is p\\0o\\0?e\\0… and matches none of the UTF-16 forms of the strings the pattern describes", f.loc)
+    r.floor("C04.R6", 3)
 
 
 def r5_wildcards_rejected(ctx) -> None:
